@@ -1347,6 +1347,32 @@ fn main() {
                     std::process::exit(3);
                 }
             }
+            // seeded random records and patterns
+            {
+                use randgen::{Rng, scalar, STRS, UNITS, ZONES};
+                let seed: u64 = std::env::var("VERIF_SEED").ok().and_then(|s| s.parse().ok()).unwrap_or(0);
+                let count: usize = args.get(2).and_then(|s| s.parse().ok()).unwrap_or(400);
+                let mut rng = Rng::seeded(seed ^ 0xD15);
+                let pieces = ["$", "${", "}", "$<key>", "$<no>", "x", " ", "\u{e9}", "$a", "$ab", "${ab}", "$navName", "$$", "<", ">", "$id", "${n}", "$n", "a", ":"];
+                let names = ["dis", "disMacro", "disKey", "name", "def", "tag", "navName", "id", "a", "ab", "n"];
+                for i in 0..count {
+                    let mut r = Dict::new();
+                    for t in names { if rng.below(3) == 0 { let v = if rng.below(2) == 0 { Value::make_str(*rng.pick(&["s", "key", "x y", ""])) } else { scalar(&mut rng, &STRS, &UNITS, &ZONES) }; if !v.is_null() { r.insert(t.into(), v); } } }
+                    let pat: String = (0..1 + rng.below(6)).map(|_| *rng.pick(&pieces)).collect();
+                    if rng.below(2) == 0 { r.insert("disMacro".into(), Value::make_str(&pat)); }
+                    let got = dis_macro(&pat, |k| r.get(k).map(Cow::Borrowed), loc).to_string();
+                    let want = expand(&pat, &r);
+                    if got != want { println!("RESULT enum:dis seed={seed} #{i} pattern={pat:?} over {r:?}: substitution gives {got:?}, the macro rules give {want:?}"); std::process::exit(3); }
+                    let first = order.iter().find(|t| r.get(**t).is_some());
+                    let plain = |v: &Value| match v { Value::Str(s) => s.value.clone(), other => other.to_string() };
+                    let want = match first { None => "DEFAULT".to_string(), Some(t) => { let v = r.get(*t).unwrap(); match (*t, v) {
+                        ("disMacro", Value::Str(s)) => expand(&s.value, &r), ("disKey", Value::Str(s)) => loc(&s.value).map(|c| c.to_string()).unwrap_or(s.value.clone()),
+                        ("id", Value::Ref(x)) => x.dis.clone().unwrap_or(x.value.clone()), _ => plain(v) } } };
+                    let got = dict_to_dis(&r, &loc, Some(Cow::Borrowed("DEFAULT"))).to_string();
+                    n += 2;
+                    if got != want { println!("RESULT enum:dis seed={seed} #{i} record={r:?}: display name {got:?}, the precedence order gives {want:?}"); std::process::exit(3); }
+                }
+            }
             println!("RESULT enum:dis {n} display names and macro substitutions agree with the precedence order and the macro rules");
         }
         // ---- C04 / C01 enumerator: the Zinc text the writer emits is read by an independent reader written from the grammar, and denotes the value
